@@ -30,11 +30,11 @@ def gen_schedules(n, seed, od, cfg="MiPageGen.cfg", module="MiPageGen", depth=80
     return scheds[:n], r
 
 def run_conc(prop, tier, seed, jobs_spec, own_guards, mc, builds=("rel", "dbg"), guided_progs=("page",), nsched=(40, 400),
-             assumptions=(), extra_cov=None, crash_decisive=True):
+             assumptions=(), extra_cov=None, crash_decisive=True, V=None, finish=True):
     """jobs_spec: list of dicts {prog, strategy, runs:(quick,thorough), args:[...], env}"""
     q = 0 if tier == "quick" else 1
-    V = vlib.Verdict(prop, tier, seed)
-    od = vlib.outdir(prop)
+    V = V or vlib.Verdict(prop, tier, seed)
+    od = vlib.outdir(prop + "conc")
     for f in os.listdir(od):
         try:
             os.remove(os.path.join(od, f))
@@ -150,6 +150,8 @@ def run_conc(prop, tier, seed, jobs_spec, own_guards, mc, builds=("rel", "dbg"),
            "decisive_guards": sorted(own_guards), "samples": (scheds[:2] + vlib.sample_lines(traces[0][0], 3) + steps[:2]), "exhaustive": False}
     if extra_cov:
         cov.update(extra_cov)
+    if not finish:
+        return V, cov
     return V.finish("model_checking", cov, assumptions=list(assumptions) + [
         "one virtual thread runs at a time: only sequentially consistent interleavings, scheduling points at the granularity of the mi_atomic_* macros on allocator memory (plus yields, locks, API boundaries)",
         "weak CAS may fail spuriously (bounded per run); executions are deterministic per seed (fork per execution)",
